@@ -24,6 +24,16 @@ var C04Queries = []string{
 	/* 11 */ "SELECT t.a, u.b FROM t.sym t LOOKUP JOIN u.sym u ON t.a = u.a",
 	/* 12 */ "SELECT t.a FROM t.sym t WHERE 1 = 1 AND t.a > 0",
 	/* 13 */ "SELECT x.a, x.b FROM (SELECT t.a, t.b, t.a + t.b AS s FROM t.sym t) x WHERE x.a > 0",
+	/* 14 */ "SELECT t.a, u.b FROM t.sym t, u.sym u WHERE t.a + u.a = 10",
+	/* 15 */ "SELECT t.a, u.b FROM t.sym t JOIN u.sym u ON t.a = u.a AND t.b + u.b = 3",
+	/* 16 */ "SELECT t.a, u.b FROM t.sym t, u.sym u WHERE t.a = 5 AND u.a = t.b",
+	/* 17 */ "SELECT t.a, u.b FROM t.sym t, u.sym u WHERE t.a < u.a",
+	/* 18 */ "SELECT t.a, u.b FROM t.sym t LOOKUP JOIN u.sym u ON t.a = u.a WHERE u.b > 0 AND t.b > 0",
+	/* 19 */ "SELECT t.a, u.b FROM t.sym t RIGHT JOIN u.sym u ON t.a = u.a",
+	/* 20 */ "SELECT t.a FROM t.sym t WHERE t.a IN (SELECT u.a FROM u.sym u)",
+	/* 21 */ "SELECT t.a, MAX(t.b) AS m FROM t.sym t WHERE t.b > 0 GROUP BY t.a",
+	/* 22 */ "SELECT x.c FROM (SELECT t.a, COUNT(*) AS c FROM t.sym t GROUP BY t.a) x WHERE x.c > 1",
+	/* 23 */ "SELECT t.a + 0 AS k, u.a AS v FROM t.sym t, u.sym u WHERE t.a + 0 = u.a + 0",
 }
 
 func ndTables(rows int, accept bool) []*Table {
